@@ -556,9 +556,9 @@ class ZopeInterfaceClassPage(ClassPage):
     def interfaceMeth(self, methname: str) -> Optional[model.Documentable]:
         system = self.ob.system
         for interface in self.ob.allImplementedInterfaces:
-            if interface in system.allobjects:
-                io = system.allobjects[interface]
-                assert isinstance(io, zopeinterface.ZopeInterfaceClass)
+            io = system.allobjects.get(interface)
+            if isinstance(io, zopeinterface.ZopeInterfaceClass):
+                # (what was passed to implementer() might not be a class: this has been reported already)
                 for io2 in io.mro():
                     method: Optional[model.Documentable] = io2.contents.get(methname)
                     if method is not None:
